@@ -27,7 +27,7 @@ func init() { core.Register(sim{}) }
 
 func (sim) Name() string { return "walletsim" }
 func (sim) Props() []string {
-	return []string{"C09", "C15", "C20", "C06", "C16", "C04", "C01", "C03", "C05", "C08", "C13", "C10"}
+	return []string{"C09", "C15", "C20", "C06", "C16", "C04", "C01", "C03", "C05", "C08", "C13", "C10", "C12"}
 }
 func (sim) Level(string) string { return "exploration" }
 func (sim) Rule(prop string) string {
@@ -42,6 +42,8 @@ func (sim) Rule(prop string) string {
 		return "C06: a case is (wallet history: receipts on all four default address types and two accounts, coinbase credits near maturity, locks, leases, clock, blocks, reorgs; requests: SendOutputs / dry CreateSimpleTx / SendOutputsWithInput with eligible and ineligible explicit inputs, random outputs, fee rates, minconf, scope, account, selection strategy; 1-4 concurrent senders)."
 	case "C20":
 		return "C20: a case is (wallet history of receipts, sends incl. chained unconfirmed ones, built-then-published transactions, leases, blocks, restarts; at every broadcast — initial and each re-broadcast after a restart — a backend answer class: accepted, already in mempool, already confirmed, rejected (fee / generic / conflict), transport error, subscription failure)."
+	case "C12":
+		return "C12 (wallet level): a case is (receipts on four address types, leases through Wallet.LeaseOutput under two identifiers, releases, the clock, blocks, restarts, and the leased coin spent whole by a transaction that someone else hands to the node, while the wallet is up or down, under a bitcoind-style or an outpoint-only (btcd-style) transaction filter)."
 	case "C10":
 		return "C10 (wallet level): the C03/C05/C08 wallet-level workload with a database fault (the k-th mutating call of the next operation, or its commit) in front of account-import previews, imports, NextAccount and address requests; after a fault fired the running wallet must answer as a manager opened on the database, previews of fresh keys must show those keys, and everything that follows in the run is attributed to the failed operation."
 	case "C03", "C05", "C08":
@@ -87,6 +89,8 @@ func (sim) Explain(prop string, st map[string]int64) string {
 		probes = []string{"probe.rejection-with-other-unmined", "probe.chained-unconfirmed-send", "probe.already-in-mempool", "probe.already-confirmed",
 			"probe.rejection-of-recorded-tx", "probe.resend-with-unmined", "probe.resend-chain", "fault.backend-answer.transport", "fault.backend-answer.reject-fee",
 			"fault.backend-answer.reject-generic", "fault.backend-answer.reject-conflict", "fault.backend-answer.notify-received-fails", "fault.backend-answer.notify-received-2nd-fails", "probe.resend-rejected", "probe.rejection-with-recorded-child", "probe.resend-child-of-two-outputs-of-one-parent", "probe.foreign-child-of-wallet-tx", "fault.crash-before-broadcast"}
+	case "C12":
+		probes = []string{"probe.c12w-checked", "probe.c12w-active-lease-checked", "probe.c12w-leased-coin-spent-outside", "probe.c12w-spent-outside-while-wallet-down", "probe.c12w-confirmed-spend-of-leased-output"}
 	case "C10":
 		probes = []string{"fault.db.write", "fault.db.commit", "probe.fault-fired-in:importdry2", "probe.fault-fired-in:importacct", "probe.fault-fired-in:newaddr", "probe.fault-fired-in:newaddri", "probe.fault-fired-in:newacct", "probe.restart-observations"}
 	case "C03", "C05", "C08":
@@ -142,6 +146,8 @@ func (sim) Generate(prop, tier string, seed uint64) *core.Plan {
 		genAcctW(r, p)
 	case "C10":
 		genAcctWFaults(r, p)
+	case "C12":
+		genC12w(r, p)
 	}
 	return p
 }
@@ -890,6 +896,24 @@ func (rs *runState) exec(task, step int, op core.Op) {
 	case "importdry":
 		if x.running {
 			rs.importdry(step, op)
+		}
+	case "lease12":
+		if x.running {
+			rs.lease12(step, op)
+		}
+	case "release12":
+		if x.running {
+			rs.release12(step, op)
+		}
+	case "buildwhole":
+		if x.running {
+			rs.buildwhole(step, op)
+		}
+	case "submitbuilt":
+		rs.submitbuilt(step)
+	case "spendoutside":
+		if x.running && rs.buildwhole(step, op) != nil {
+			rs.submitbuilt(step)
 		}
 	case "faultnext":
 		rs.faultnext(step, op)
